@@ -89,8 +89,11 @@ DEP_REQUESTS = {
     # reserved word as a field name of a dependency message (corpus only: the generator aborts)
     ".google.api.ResourceDescriptor": ("google/api/resource.proto", ["type", "pattern", "name_field"]),
     ".google.longrunning.WaitOperationRequest": ("google/longrunning/operations.proto", ["name", "timeout"]),
+    # two repeated scalar fields (corpus only: the sync client of such a method has an IndentationError)
+    ".google.protobuf.FileDescriptorProto": ("google/protobuf/descriptor.proto", ["name", "package", "dependency", "public_dependency"]),
 }
-SAFE_DEPS = [k for k in DEP_REQUESTS if k not in (".google.api.ResourceDescriptor", ".google.longrunning.WaitOperationRequest")]
+SAFE_DEPS = [k for k in DEP_REQUESTS if k not in (".google.api.ResourceDescriptor", ".google.longrunning.WaitOperationRequest",
+                                                  ".google.protobuf.FileDescriptorProto")]
 
 # dotted paths below the helper messages that the random stream may use
 SUB_PATHS = {
@@ -631,6 +634,7 @@ def raw_keys(want, cross):
 def shape_flags(codec, input_full, sigs, reserved, cross):
     """which excluded shapes (points where the real code is known to leave the statement) a method has"""
     flags = set()
+    shape_flags._n = 0
     paths = declared_paths(sigs)
     terms = list(FIXED_PARAMS)
     for p in paths:
@@ -646,6 +650,11 @@ def shape_flags(codec, input_full, sigs, reserved, cross):
             flags.add("cross-reserved")
         if cross and len(segs) > 1:
             flags.add("cross-dotted")
+        if cross and fd.label == fd.LABEL_REPEATED:
+            nrep = getattr(shape_flags, "_n", 0) + 1
+            shape_flags._n = nrep
+            if nrep >= 2:
+                flags.add("cross-two-repeated")
         term = py_attr(owner, fd, reserved)
         if term in terms:
             flags.add("dup-param")
@@ -663,6 +672,8 @@ def classify(kind, flags, plan=None, msg=""):
         return "cross-package-reserved-name:generator-keyerror"
     if kind == "import-failed" and "dup-param" in flags and "duplicate argument" in msg:
         return "duplicate-parameter-name:syntaxerror"
+    if kind == "import-failed" and "cross-two-repeated" in flags and "IndentationError" in msg:
+        return "cross-package-two-repeated:sync-indentationerror"
     if plan is not None:
         given, falsy = plan[0], plan[1]
         rawrep, rawmsg = plan[2] if len(plan) > 2 else ([], [])
@@ -1058,7 +1069,7 @@ CLAIM = dict(
           'value_error_iff_mixed), AttributeError exactly when a given key ends in a field of a RAW protobuf sub-message that protobuf '
           'refuses to assign (attribute_error_iff, async_raw_ok_of_sync); (4) every rendered request.<key> is a keyword-free attribute path that proto-plus resolves to the fields '
           'get_field found, reserved words and keywords in any position included (key_attr_resolves, emit_never_keyword_attr; regression for the '
-          'repaired §9-F2: keyword_segment_regression). Seven *_counterexample theorems pin the inputs '
+          'repaired §9-F2: keyword_segment_regression). Eight *_counterexample theorems pin the inputs '
           'where the real code leaves the statement (all reproduced on /repo, see findings/C05.json). Tie: T1 bridge lemmas for RESERVED_NAMES '
           'and keyword.kwlist; T2 the real flattened_fields/_fields_mapping vs the model on generated and unresolvable signatures; T3 the emitted '
           'sync and asyncio clients against a loopback gRPC server (inspect.signature; bytes of kwargs / request / mixed calls decoded under the '
@@ -1072,5 +1083,5 @@ CLAIM = dict(
           'python-level type errors are outside the model (the generator keeps to one oneof member per method and treats well-known types as '
           'leaves). The kwargs==request oracle is not applied to default-valued arguments of dotted keys (presence of the parents is not fixed '
           'by the statement); sync==asyncio is. Requests from a proto sub-package of the API (proto-plus types with a different package tuple) '
-          'are not generated. Client-streaming methods (no flattened parameter at all) are modelled and checked by signature only. Seven known findings are listed in findings/C05.json and replayed from corpus/C05 on every run.'),
+          'are not generated. Client-streaming methods (no flattened parameter at all) are modelled and checked by signature only. Eight known findings are listed in findings/C05.json and replayed from corpus/C05 on every run.'),
 )
